@@ -881,7 +881,23 @@ func (v Value) toReflectValue(typ reflect.Type) (reflect.Value, error) {
 	case reflect.Complex128: // FIXME? Complex128
 	case reflect.Chan: // FIXME? Chan
 	case reflect.Func: // FIXME? Func
-	case reflect.Ptr: // FIXME? Ptr
+	case reflect.Ptr: // Ptr
+		// A nil pointer reads as undefined; a pointer to a struct or array reads as the bridged value.
+		switch v.kind {
+		case valueUndefined, valueNull:
+			return reflect.Zero(typ), nil
+		case valueObject:
+			switch vl := v.object().value.(type) {
+			case *goStructObject:
+				if vl.value.Type().AssignableTo(typ) {
+					return vl.value, nil
+				}
+			case *goArrayObject:
+				if vl.value.Type().AssignableTo(typ) {
+					return vl.value, nil
+				}
+			}
+		}
 	case reflect.UnsafePointer: // FIXME? UnsafePointer
 	default:
 		switch v.kind {
@@ -915,8 +931,9 @@ func (v Value) toReflectValue(typ reflect.Type) (reflect.Value, error) {
 		}
 	}
 
-	// FIXME Should this end up as a TypeError?
-	panic(fmt.Errorf("invalid conversion of %v (%v) to reflect.Type: %v", v.kind, v, typ))
+	// A script reaches this by storing into a bridged slice, array or map whose elements are
+	// pointers, functions, channels or complex numbers: it gets a TypeError.
+	panic(newError(nil, "TypeError", 0, "invalid conversion of %v (%v) to reflect.Type: %v", v.kind, v, typ))
 }
 
 func stringToReflectValue(value string, kind reflect.Kind) (reflect.Value, error) {
